@@ -237,6 +237,13 @@ class Evaluator:
             if v is not NotImplemented:
                 return v
         f = e.func
+        if isinstance(f, ast.Name) and f.id == "isinstance" and len(e.args) == 2:
+            v = self.eval(e.args[0])
+            table = {"bool": bool, "int": int, "float": float, "str": str, "list": list, "dict": dict, "tuple": tuple, "set": set}
+            names = [x.id for x in (e.args[1].elts if isinstance(e.args[1], ast.Tuple) else [e.args[1]]) if isinstance(x, ast.Name)]
+            if not isinstance(v, Opaque) and names and all(n in table for n in names) and type(v) in table.values():
+                return isinstance(v, tuple(table[n] for n in names))
+            raise Unknown("isinstance on a value outside the finite domain")
         if isinstance(f, ast.Name):
             args = [self.eval(a) for a in e.args]
             if any(isinstance(a, Opaque) for a in args):
@@ -266,6 +273,10 @@ class Evaluator:
                     return slice(*args)
                 if f.id == "isinstance":
                     raise Unknown("isinstance")
+                if f.id == "sum":
+                    return sum(args[0])
+                if f.id == "str":
+                    return str(args[0])
             except (TypeError, ValueError):
                 raise Unknown(f"call {f.id} on unsupported values")
         if isinstance(f, ast.Attribute) and isinstance(f.value, ast.Name) and f.value.id == "math" and f.attr == "isinf":
